@@ -22,7 +22,7 @@ ASSUMPTIONS = [
     "masked: NBSP written as a character reference (the implementation replaces characters of the source text only)",
     "attribute and element names are compared as written (prefix:local); namespace declarations may move",
 ]
-REQUIRED = ["cross_mode_cases", "strings", "strings_with_nbsp", "documents", "documents_twice", "protected_segments", "normalised_segments", "attribute_values",
+REQUIRED = ["documents_after_the_rest_of_the_library_was_used", "library_modules_imported", "cross_mode_cases", "strings", "strings_with_nbsp", "documents", "documents_twice", "protected_segments", "normalised_segments", "attribute_values",
             "xsi_attributes", "protected_nested_in_protected"]
 EXHAUSTIVE = {"quick": False, "thorough": False}
 
@@ -202,8 +202,6 @@ def judge_doc(ctx, doc, text):
                 ctx.count("normalised_segments")
             if exp == "" or (here and exp.strip(XML_WS) == "" and sa == ""):
                 ok = sb.strip(XML_WS) == ""
-            elif here and exp.strip(XML_WS) == "":
-                ok = sb == exp or sb.strip(XML_WS) == ""
             else:
                 ok = sb == exp
             if not ok:
@@ -213,6 +211,32 @@ def judge_doc(ctx, doc, text):
         for i, (x, y) in enumerate(zip(ka, kb)):
             stack.append((x, y, here, f"{where}[{i}]/"))
     ctx.distinct(text)
+
+
+def use_the_rest_of_the_library(ctx):
+    """Normalisation is one step of a pipeline (normalise, import, validate, export): from here on every other module of the
+    package has been imported and used in this process, which must not change what normalize returns."""
+    import importlib
+    import pkgutil
+    import metapype
+    for m in pkgutil.walk_packages(metapype.__path__, "metapype."):
+        try:
+            importlib.import_module(m.name)
+            ctx.count("library_modules_imported")
+        except Exception:
+            ctx.count("library_modules_not_importable")
+    from metapype.eml import export, validate
+    from metapype.model import metapype_io
+    try:
+        t = metapype_io.from_xml('<eml:eml xmlns:eml="https://eml.ecoinformatics.org/eml-2.2.0" packageId="p" system="s"><dataset><title>t</title>'
+                                 '</dataset></eml:eml>')
+        validate.tree(t, [])
+        export.to_xml(t)
+        metapype_io.to_xml(t)
+        metapype_io.from_json(metapype_io.to_json(t))
+        emlkit.discard(t)
+    except Exception:
+        ctx.count("pipeline_steps_failed")
 
 
 def run(ctx, params):
@@ -228,6 +252,10 @@ def run(ctx, params):
     for fixed in ("", " ", "\xa0", "a", " a ", "a  b", "a\xa0b", "\xa0a\xa0", "a \xa0 b", "a\tb", "a\nb", " \t\n ", "a \t b", "\ta", "a\n"):
         judge_string(ctx, fixed)
     for i in range(params["docs"]):
+        if i == params["docs"] // 2:
+            use_the_rest_of_the_library(ctx)
+        if i >= params["docs"] // 2:
+            ctx.count("documents_after_the_rest_of_the_library_was_used")
         doc = xmlgen_doc = random_doc(rng, rng.choice([1, 3, 8, 20, 50]))
         text = serialize_literal(rng, doc)
         try:
@@ -278,9 +306,12 @@ def _unref(m):
 
 
 def replay(ctx, witness):
-    if "string" in witness:
-        judge_string(ctx, witness["string"])
-    else:
-        judge_doc(ctx, xmlgen.read(witness["xml"]), witness["xml"])
+    for phase in range(2):
+        if "string" in witness:
+            judge_string(ctx, witness["string"])
+        else:
+            judge_doc(ctx, xmlgen.read(witness["xml"]), witness["xml"])
+        if phase == 0:
+            use_the_rest_of_the_library(ctx)
     ctx.distinct(1)
     ctx.distinct(2)
